@@ -85,7 +85,7 @@ def clean_case(spec, estimator, n_reporting, alphas, n_total=None, salt=0):
     rng = gen.rng_for(spec["seed"], PROPERTY, spec["i"], salt=salt)
     n_total = n_total or (n_reporting + int(rng.integers(3, 12)))
     o = dict(estimator=estimator, district=False, el_n_states=1, el_n_units=max(n_total, 4), el_counties_per_state=2,
-             el_n_zero_baseline=0, el_noise="gauss", el_noise_scale=0.03, feed_n_missing=0, feed_n_unexpected=0,
+             el_n_zero_baseline=0, el_tiny_county=False, el_uncontested=False, el_noise="gauss", el_noise_scale=0.03, feed_n_missing=0, feed_n_unexpected=0,
              feed_p_strange=0.0, feed_boundary=False, threshold=100, policy="drop", alphas=list(alphas),
              aggregates=["postal_code", "unit"], fixed_effects={}, features=[] if estimator != "bootstrap" else None,
              n_estimands=1, feed_frac_reporting=1.0,
@@ -111,6 +111,8 @@ def clean_case(spec, estimator, n_reporting, alphas, n_total=None, salt=0):
         else:
             feed.loc[j, "percent_expected_vote"] = 0.0
             feed.loc[j, ["results_turnout", "results_dem", "results_gop"]] = [0, 0, 0]
+    if keep != n_reporting:  # a mistake of this harness, never a verdict on the repository
+        raise RuntimeError(f"clean_case built {keep} reporting units, {n_reporting} wanted")
     return el, feed, call, keep
 
 
